@@ -114,7 +114,7 @@ class Ctx:
         if self.pos < len(self.trail):
             d = self.trail[self.pos][0]
             self.pos += 1
-            self.solver.add(cond if d else z3.Not(cond))
+            self.add(cond if d else z3.Not(cond))  # keeps a cached model honest
             return d
         if self.split_depth is not None and self.pos >= self.split_depth:
             raise SplitPoint()
@@ -876,6 +876,8 @@ def explore(fn, prefix=None, split_depth=None, on_path=None, max_paths=None, dea
                 raise
             except expect as ex:  # unexpected exception escaping the code under test
                 import traceback
+                if __import__("os").environ.get("VERIF_DEBUG"):
+                    traceback.print_exc()
                 tb = traceback.extract_tb(ex.__traceback__)
                 where = ""
                 for fr in reversed(tb):
